@@ -100,12 +100,12 @@ fn reprs(s: &str, pl: &str) -> String {
     };
     let c = Constant::Str(s.to_string());
     let disp = match guard(|| c.to_string()) {
-        None => "panic",
+        None => "panic".to_string(),
         Some(d) => {
             if d == repr {
-                "eq"
+                "eq".to_string()
             } else {
-                "ne"
+                hex(d.as_bytes()) // shown so that the oracle can judge the displayed text itself
             }
         }
     };
@@ -153,12 +153,12 @@ fn reprb(b: &[u8]) -> String {
     };
     let c = Constant::Bytes(b.to_vec());
     let disp = match guard(|| c.to_string()) {
-        None => "panic",
+        None => "panic".to_string(),
         Some(d) => {
             if d == repr {
-                "eq"
+                "eq".to_string()
             } else {
-                "ne"
+                hex(d.as_bytes()) // shown so that the oracle can judge the displayed text itself
             }
         }
     };
